@@ -121,7 +121,16 @@ class Interposer:
                         except Exception:
                             rec["effective"] = True
                             raise
-                        rec["effective"] = False  # helper returned although it could not have met the tolerance
+                        # the helper returned.  Legitimate only if its own reported error meets the criterion (the iterate was an
+                        # exact fixed point already); otherwise the helper swallowed the non-convergence: the forced failure IS
+                        # effective and the run that follows is judged like any other failure that the solver was told about
+                        err = out[2] if isinstance(out, tuple) and len(out) >= 3 else None
+                        try:
+                            silent = err is None or not (float(err) < 1.0)
+                        except (TypeError, ValueError):
+                            silent = True
+                        rec["effective"] = bool(silent)
+                        rec["silent_return"] = bool(silent)
                         return out
                     return _real(fun, x0, atol=atol, rtol=rtol, max_iter=max_iter)
 
